@@ -225,6 +225,11 @@ def mutate(rng, text, ec=None):
 class MsgGen(Gen):
     """instances of message structures"""
 
+    def structures(self):
+        """addressable message structures: the tables also hold templates such as 'QBP_Qnn' whose key is not upper case
+        and which therefore no MSH-9 can name (Element.__init__ upper-cases the name)"""
+        return sorted(k for k in self.lib.MESSAGES if k == k.upper())
+
     def derive(self, ref, depth, style, maxdepth=3):
         """list of derivation nodes: ('S', name) | ('G', name, [children]) following the structure `ref`"""
         r = self.rng
@@ -235,6 +240,8 @@ class MsgGen(Gen):
             if not (is_seq(row) and len(row) == 4):
                 continue
             name, cref, card, cls = row
+            if name == 'ANYHL7SEGMENT':
+                continue              # a placeholder row of the tables, not a segment
             mn, mx = card if is_seq(card) and len(card) == 2 else (0, 1)
             if style == 'required':
                 n = mn
@@ -251,6 +258,9 @@ class MsgGen(Gen):
                     out.append(('S', name))
                 elif cls == 'GRP':
                     kids = self.derive(cref, depth + 1, style, maxdepth)
+                    if not kids and mn >= 1:
+                        # a required group whose members are all optional: an instance needs at least one member
+                        kids = self.derive(cref, depth + 1, 'all', maxdepth)[:1]
                     if kids:
                         out.append(('G', name, kids))
         return out
